@@ -53,14 +53,14 @@ def gen_tests(r, nfun):
 
 
 def gen_scenarios(tier, r):
-    n = 1 if tier == "quick" else 6
+    n = 2 if tier == "quick" else 6
     out = []
     for _ in range(n):
         nfun = 3 if tier == "quick" else r.randint(2, 5)
         runs = []
         for _k in range(2 if tier == "quick" else r.randint(2, 3)):
             runs.append(gen_tests(r, nfun))   # same signatures, other constants: the contract was edited
-        out.append({"runs": runs, "solver": r.choice(["yices", "z3"]) if tier != "quick" else "yices"})
+        out.append({"runs": runs, "solver": ["yices", "z3"][len(out) % 2]})
     return out
 
 
